@@ -185,3 +185,15 @@ CLAIMS["C16"] = (
     "alpha_max(1-1e-3) some penalised coefficient is non-zero.",
     "Reference null model: closed-form least squares / Newton. Clauses apply when the solver reports stop_crit <= 1e-10.",
     "DESIGN.md §4 C16")
+CLAIMS["C02"] = (
+    "exploration",
+    "bounded exhaustive enumeration of convex problems x all applicable solver routes x independent reference implementations, compared through theorems of convexity",
+    "11 convex families x intercept on/off x 5 designs (n>p, n=p, n<p, duplicated column, orthogonal) x 2 targets x alpha fractions x "
+    "mixing / weights / layout variants; every applicable skglm route (AndersonCD subdiff / fixpoint / p0=1, GramCD greedy / cyclic / "
+    "cyclic+acc, FISTA, ProxNewton subdiff / fixpoint, GroupBCD, MultiTaskBCD, PDCD_WS) and a reference (scikit-learn, celer, HiGHS LP) "
+    "solve the same documented objective: each converged route's recomputed violation must be within its margin, and F(w) - F(v) "
+    "<= violation * ||w - v||_1 must hold against the reference solution and every other route; coefficients must agree when "
+    "the problem is strongly convex.",
+    "The gap inequality is a theorem for any comparison point, so inexact references cannot cause alarms. Margins: 1 (C01 solvers), "
+    "10 (FISTA). Non-smooth datafits compared by objective value (1e-6).",
+    "DESIGN.md §4 C02")
